@@ -344,6 +344,15 @@ impl Cartesian<'_> {
             return Err("Stopped".into());
         }
 
+        // The stroke was computed on the kinematics that does not check for collisions
+        // (see step_adaptive_linear_transition), so all its waypoints are checked here.
+        let collides = trace
+            .par_iter()
+            .any(|waypoint| self.robot.collides(&waypoint.joints));
+        if collides {
+            return Err("Collision detected on the stroke".into());
+        }
+
         if self.include_linear_interpolation {
             Ok(trace)
         } else {
